@@ -433,8 +433,8 @@ def _mask_sites(prog):
                           and isinstance(x.value, ast.Constant) and x.value.value == 0]
                 if stores and len(st.body) == 1 and not st.orelse:
                     found.append((st, stores[0]))
-        if len(found) != n:
-            raise AnalysisError("%s: expected %d secular mask site(s), found %d" % (qual, n, len(found)))
+        if len(found) < 1:
+            raise AnalysisError("%s: no secular mask site found (%d confirmed)" % (qual, n))
         for st, store in found:
             out.append((f, st, store))
     return out
@@ -486,8 +486,38 @@ def rule_C(run, prog):
         sub = store.targets[0].slice
         elts = sub.elts if isinstance(sub, ast.Tuple) else [sub]
         names = [e.id for e in elts if isinstance(e, ast.Name)]
-        if len(names) != 4 or len(set(names)) != 4:
+        lead = [e for e in elts if not isinstance(e, ast.Name)]
+        whole = all((isinstance(e, ast.Slice) and e.lower is None and e.upper is None and e.step is None)
+                    or (isinstance(e, ast.Constant) and e.value is Ellipsis) for e in lead)
+        if len(names) != 4 or len(set(names)) != 4 or not whole or (lead and elts[:len(lead)] != lead) or len(lead) > 1:
             raise AnalysisError("secular mask store with unexpected subscript: %s" % norm(store))
+        # the state indices are the last four of the data: which ranks can reach this store?
+        from ..loader import parents_map
+        pm_ = parents_map(f.node)
+        ranks = None          # None: no test of the rank on the way to the store
+        node_ = st
+        while node_ is not None and node_ is not f.node:
+            par_ = pm_.get(node_)
+            if isinstance(par_, ast.If) and "ndim" in norm(par_.test) and isinstance(par_.test, ast.Compare) \
+                    and isinstance(par_.test.comparators[0], ast.Constant):
+                k_ = par_.test.comparators[0].value
+                in_body = any(node_ is x for x in par_.body)
+                eq = isinstance(par_.test.ops[0], ast.Eq)
+                if eq == in_body:
+                    ranks = {k_}
+                else:
+                    ranks = {4, 5} - {k_}
+            node_ = par_
+        if ranks is None:
+            ranks = {5} if "TimeDependent" in [getattr(b_, "name", "") for b_ in prog.mro(f.cls) if b_ is not None] else {4, 5}
+        ellipsis = bool(lead) and isinstance(lead[0], ast.Constant)
+        ok_rank = (ranks == {4} and not lead) or (ranks == {5} and bool(lead)) or (ranks == {4, 5} and ellipsis)
+        run.obligation(rid, "%s:mask-rank@self.data[%s]" % (f.short, norm(sub)), ok_rank, key="state-indices-last",
+                       message="the mask `%s` is reached for data of rank %s: the state indices are the last four, time-dependent "
+                               "data carry the time in front.  With this subscript the first state index runs over the time axis - "
+                               "whole rows of the early time points are wiped out (population and coherence-decay elements "
+                               "included) and nothing else is secularized" % (norm(store), sorted(ranks)),
+                       loc=f.loc(store), sample={"ranks": sorted(ranks), "store": norm(store)})
         # the four names must be the variables of the four enclosing full loops
         loopvars = []
         for n in ast.walk(f.node):
